@@ -265,6 +265,9 @@ def cases(tier, seed):
     for i in range(npool):
         out.append({"k": "namesrow", "i": i})
     out.append({"k": "twins"})
+    nw = len(space.wide_specs())
+    for i in range(nw):
+        out.append({"k": "wide", "i": i})
     for (sa, sb) in space.broadcastable_pairs(space.SHAPES):
         out.append({"k": "shapes", "a": list(sa), "b": list(sb)})
     for shape in space.SHAPES:
@@ -349,6 +352,18 @@ def run_case(case, R, extra_check=None):
             for op in BINOPS:
                 judge(R, {"op": op, "x": [a, P(b)]}, op, extra_check)
         R.sample({"pair": [short(a), short(P(pool[-1]))]})
+    elif k == "wide":
+        ws = space.wide_specs()
+        la, sa_ = ws[case["i"]]
+        R.state(("wide", la))
+        for lb, sb_ in ws:
+            judge(R, {"op": "add", "x": [P(sa_), P(sb_)]}, "add", extra_check)
+            judge(R, {"op": "sub", "x": [P(sa_), P(sb_)]}, "sub", extra_check)
+            if len(sa_["t"]) * len(sb_["t"]) <= 80:
+                judge(R, {"op": "mul", "x": [P(sa_), P(sb_)]}, "mul", extra_check)
+        judge(R, {"op": "mul", "x": [P(sa_), {"s": 3}]}, "mul", extra_check)
+        judge(R, {"op": "neg", "x": [P(sa_)]}, "neg", extra_check)
+        R.sample({"wide": la})
     elif k == "twins":
         # colliding inputs (same exponent bytes in another layout, same table under other names ...) combined one after
         # the other in one process: a result computed from state left behind by an earlier call disagrees with the model
